@@ -391,7 +391,7 @@ fn marathon_child(lib: &'static dyn Lib, g: Grp, op: Op, fx: &Fixture, n: usize,
     }
     let mut seen: Vec<(u128, u8, u32)> = Vec::with_capacity(n + 64);
     let mut rec = Rec::new("C20");
-    let mut run_a = |seen: &mut Vec<(u128, u8, u32)>, from: usize, count: usize, rec: &mut Rec| -> Result<(), String> {
+    let run_a = |seen: &mut Vec<(u128, u8, u32)>, from: usize, count: usize, rec: &mut Rec| -> Result<(), String> {
         for i in from..from + count {
             for (_, b) in call_once(rec, lib, g, op, fx)? {
                 seen.push((digest(&b), 0, i as u32));
